@@ -1294,6 +1294,7 @@ static void run_script(FILE* in) {
             size_t big = 0; uint8_t* bigbuf = NULL;
             for (int q = 3; q < nt; ++q) if (!strncmp(tok[q], "rep=", 4)) big = (size_t)strtoull(tok[q] + 4, NULL, 10);
             if (big && n) {
+                alarm(1200);    /* the watchdog's twenty seconds are for ordinary calls: filling, reading and comparing gigabytes takes longer on a busy machine */
                 bool ascii = true; for (size_t q = 0; q < n; ++q) if (s[q] >= 0x80) ascii = false;
                 bigbuf = ascii ? mmap(NULL, big + 1, PROT_READ | PROT_WRITE, MAP_PRIVATE | MAP_ANONYMOUS | MAP_NORESERVE, -1, 0) : MAP_FAILED;
                 if (bigbuf == MAP_FAILED) continue;
